@@ -1,182 +1,10 @@
+import J5V.Schema.PropSetModel
 import J5V.Schema.ReaderPaths
 /-!
-# Model of the kind checks of `lib/j5reflect` (property set construction) — C18, codec side
-
-Mirrors, on the reflected *shape*:
-
-* `ObjectSchema.ClientProperties` (`lib/j5schema/root_schema.go`, after 595283b): flattened object
-  fields are replaced by the client properties of their object, paths concatenated, **unless** the
-  object is already being flattened (the guard that ended the infinite recursion). Defined by
-  well-founded recursion on (registered names not on the flattening stack, properties left).
-* `newPropSet` (`property_set.go`): each property's proto path is walked through the message
-  descriptors; a missing number or a non-message on the way is an error.
-* `buildProperty` / `newMessageFieldFactory` / `newFieldFactory`: array ↔ list, map ↔ map,
-  mutable schemas (object, oneof, any, and — by `Mutable()` — array and map) go to the message
-  factory, which **panics** on anything but object / oneof / any; leaf schemas are checked
-  against the proto kind (`EnumField is kind …`, `ScalarField is proto kind …`).
-
-Only the checks are modelled (what makes `NewRoot` / the codec fail before any value is touched);
-values are the codec cluster's model.
+# Lemmas about the property-set checks (C18, codec side)
 -/
 namespace J5V.Schema.Reader
 open J5V.Go J5V.Schema
-
-/-! ## ClientProperties -/
-
-/-- `ObjectField.Schema()`: `s.Ref.To.(*ObjectSchema)` -/
-def objectProps (reg : Reg) (r : Ref) : Outcome (List RProp) :=
-  match reg.find r.pkg r.schema with
-  | some e =>
-    match e.to with
-    | some (.object _ _ _ _ ps) => .ok ps
-    | some _ => .panic "interface conversion: RootSchema is not *ObjectSchema"
-    | none => .panic "interface conversion: RootSchema is nil, not *ObjectSchema"
-  | none => .panic "unregistered reference"
-
-def onStack (fl : List Ref) (r : Ref) : Bool := fl.contains r
-
-/-- registered names not on the flattening stack -/
-def unflattened (reg : Reg) (fl : List Ref) : Nat :=
-  (reg.filter fun e => !onStack fl ⟨e.pkg, e.key⟩).length
-
-theorem unflattened_lt (reg : Reg) (fl : List Ref) (r : Ref) (e : REntry)
-    (hf : reg.find r.pkg r.schema = some e) (hn : onStack fl r = false) :
-    unflattened reg (fl ++ [r]) < unflattened reg fl := by
-  unfold unflattened
-  obtain ⟨hp, hk⟩ := Reg.find_pred reg r.pkg r.schema e hf
-  have hmem : e ∈ reg := by
-    unfold Reg.find at hf
-    exact List.mem_of_find?_eq_some hf
-  have he : (⟨e.pkg, e.key⟩ : Ref) = r := by cases r; simp_all
-  apply filter_length_lt _ _ _ _ e hmem
-  · simp [he, hn]
-  · simp [onStack, he]
-  · intro x hx
-    simp only [onStack, List.contains_append, Bool.not_or, Bool.and_eq_true, Bool.not_eq_eq_eq_not,
-      Bool.not_true] at hx ⊢
-    exact hx.1
-
-/-- `nestedClone`: the child's path is appended to the flattened field's path -/
-def nestedClone (inParent : List Int) (p : RProp) : RProp := { p with path := inParent ++ p.path }
-
-/-- `clientProperties(flattening)` over the properties of the object on top of the stack `fl` -/
-def clientProps (reg : Reg) (fl : List Ref) (props : List RProp) : Outcome (List RProp) :=
-  match props with
-  | [] => .ok []
-  | prop :: rest =>
-    let here : Outcome (List RProp) :=
-      match prop.schema with
-      | .object ref true =>
-        if hs : onStack fl ref then .ok [prop]
-        else
-          match hf : reg.find ref.pkg ref.schema with
-          | none => .panic "unregistered reference"
-          | some e =>
-            match e.to with
-            | some (.object _ _ _ _ ps) =>
-              (clientProps reg (fl ++ [ref]) ps).map fun cs => cs.map (nestedClone prop.path)
-            | some _ => .panic "interface conversion: RootSchema is not *ObjectSchema"
-            | none => .panic "interface conversion: RootSchema is nil, not *ObjectSchema"
-      | _ => .ok [prop]
-    here.bind fun a => (clientProps reg fl rest).map fun b => a ++ b
-termination_by (unflattened reg fl, props.length)
-decreasing_by
-  · apply Prod.Lex.left
-    exact unflattened_lt reg fl ref e hf (by simpa using hs)
-  · apply Prod.Lex.right
-    simp
-
-/-- `ObjectSchema.ClientProperties()` of the object registered under `self` -/
-def clientProperties (reg : Reg) (self : Ref) : Outcome (List RProp) :=
-  (objectProps reg self).bind fun ps => clientProps reg [self] ps
-
-/-! ## newPropSet and the field factories -/
-
-def targetFull : Target → String
-  | .msg full _ _ => full
-  | .enum full _ _ => full
-  | .none => ""
-
-/-- the walk of `newPropSet` along one proto path: the last field, or an error -/
-def resolvePath (ds : DescSet) (m : Msg) : List Int → Outcome (Option FieldD)
-  | [] => .ok none
-  | [n] =>
-    match m.fields.find? fun f => f.number == n with
-    | some f => .ok (some f)
-    | none => .err "newPropSet: field not found"
-  | n :: rest =>
-    match m.fields.find? fun f => f.number == n with
-    | none => .err "newPropSet: field not found"
-    | some f =>
-      if f.kind != .message then .err "field is not a message but has nested types"
-      else
-        match ds.msg? (targetFull f.target) with
-        | some m' => resolvePath ds m' rest
-        -- a message of a dependency file (well-known / j5 type): its fields are not in the
-        -- summary; reached only when a flattened path is walked in a message other than the one
-        -- it was built from (colliding schema names), where Go answers "field not found"
-        | none => .err "newPropSet: field not found"
-
-/-- every path of a property list resolves (`newPropSet`) -/
-def resolveAll (ds : DescSet) (m : Msg) : List RProp → Outcome Unit
-  | [] => .ok ()
-  | p :: ps => (resolvePath ds m p.path).bind fun _ => resolveAll ds m ps
-
-/-- `Reflector.NewRoot` on an (empty) message of type `m`, after `SchemaCache.Schema` succeeded:
-`buildObject` / `buildOneof` → `newPropSet(schema.ClientProperties(), descriptor)` -/
-def newRoot (ds : DescSet) (reg : Reg) (m : Msg) : Outcome Unit :=
-  match reg.find m.pkg m.split with
-  | some e =>
-    match e.to with
-    | some (.object _ _ _ _ ps) =>
-      (clientProps reg [⟨m.pkg, m.split⟩] ps).bind fun cps => resolveAll ds m cps
-    | some (.oneof _ _ ps) => resolveAll ds m ps
-    | some (.enum ..) => .err "unsupported root schema type"
-    | none => .err "unlinked ref"
-  | none => .err "no schema"
-
-/-- `Mutable()` -/
-def mutableSchema : RField → Bool
-  | .scalar .. => false
-  | .enum _ => false
-  | _ => true
-
-/-- `newMessageFieldFactory` -/
-def messageFactory : RField → Outcome Unit
-  | .object _ _ => .ok ()
-  | .oneof _ => .ok ()
-  | .any => .ok ()
-  | _ => .panic "invalid schema for message field"
-
-/-- `newFieldFactory` -/
-def leafFactory (s : RField) (kind : PKind) (t : Target) : Outcome Unit :=
-  match s with
-  | .enum _ => if kind != .enum then .err "EnumField is kind …" else .ok ()
-  | .scalar _ _ k wkt =>
-    if wkt != "" then
-      if kind != .message then .err "ScalarField is proto kind …, want message"
-      else if targetFull t != wkt then .err "ScalarField message is …"
-      else .ok ()
-    else if kind.num != k then .err "ScalarField is proto kind …"
-    else .ok ()
-  | _ => .panic "invalid schema for leaf field"
-
-def itemFactory (s : RField) (kind : PKind) (t : Target) : Outcome Unit :=
-  if mutableSchema s then messageFactory s else leafFactory s kind t
-
-/-- `j5reflect.buildProperty`: the checks made when a value of the property is built -/
-def reflectField (f : FieldD) (s : RField) : Outcome Unit :=
-  match s with
-  | .array item =>
-    if f.card != .list then .err "Reflection Bug: ArrayField is not a list"
-    else itemFactory item f.kind f.target
-  | .map item =>
-    if f.card != .map then .err "MapField is not a map"
-    else
-      match f.mapVal with
-      | some (vk, vt, _) => itemFactory item vk vt
-      | none => .panic "map field without value descriptor"
-  | _ => itemFactory s f.kind f.target
 
 /-- a schema that describes a field passes every check of the property-set layer -/
 theorem reflectField_ok (ds : DescSet) (f : FieldD) (s : RField) (h : describes ds f s = true) :
